@@ -13,6 +13,7 @@
    valid JSON text yields the message.
    Proved at byte level (Proofs/Utf8.v, JsonString.v, JsonRoundtrip.v, ExportBytes.v):
      C13_decode_encode        utf8.DecodeRune then string(rune) gives back a well formed sequence
+     C13_encode_decode        and utf8.DecodeRune of string(rune) gives back every Unicode scalar value
      C13_string_roundtrip     the string reader applied to what the encoder prints for ANY byte
                               string yields that string with invalid UTF-8 replaced by U+FFFD
      C13_valid_text_unchanged ... i.e. the string itself when it is valid UTF-8
@@ -84,3 +85,7 @@ Theorem C13_export_bytes : forall e m vs,
                   (Some (map (fun r => strip (san_raw r)) (isort_by value_ltb' vs)))).
 Proof. exact import_export_bytes. Qed.
 Print Assumptions C13_export_bytes.
+
+Theorem C13_encode_decode : forall r s, scalar r -> decode1 (encode_rune r ++ s) = Some (r, encode_rune r, s).
+Proof. exact encode_decode. Qed.
+Print Assumptions C13_encode_decode.
